@@ -46,8 +46,34 @@ func isObjectType(t types.Type) bool {
 	if isBigInt(t) {
 		return true
 	}
+	if _, ok := objArray(t); ok {
+		return true
+	}
 	_, ok := t.Underlying().(*types.Struct)
 	return ok
+}
+
+// objArray: a fixed-size array (at most 64 elements) whose elements are
+// objects. Such an array is itself an object: element i lives at the element
+// address ea$T(base, i) of the array's own address.
+func objArray(t types.Type) (*types.Array, bool) {
+	if t == nil {
+		return nil, false
+	}
+	a, ok := t.Underlying().(*types.Array)
+	if !ok || a.Len() > 64 {
+		return nil, false
+	}
+	if isBigInt(a.Elem()) {
+		return a, true
+	}
+	if _, ok := a.Elem().Underlying().(*types.Struct); ok {
+		return a, true
+	}
+	if _, ok := objArray(a.Elem()); ok {
+		return a, true
+	}
+	return nil, false
 }
 
 // sortOf returns the value kind and (for scalars) the SMT sort for a Go type.
